@@ -63,6 +63,7 @@ class Ctx:
         self.set_rng = None
         self.set_policy = "insertion"
         self.walk_rng = None
+        self.walk_salt = ""
         self.walk_policy = "sorted"
         self.io_root = None          # str prefix: faults only apply below it
         self.io_plan = None          # dict(kind, tick) or None
@@ -304,8 +305,15 @@ def sim_walk(top, topdown=True, onerror=None, followlinks=False):
             dirs.reverse()
             files.reverse()
         elif pol == "shuffled":
-            rng.shuffle(dirs)
-            rng.shuffle(files)
+            # a permutation keyed by (process seed, directory, name): the relative order of two
+            # entries does not depend on which other entries exist (e.g. the cache directory)
+            salt = CTX.walk_salt
+            here = os.path.relpath(os.fspath(root), os.fspath(top))   # independent of how the root is spelled
+
+            def key(name):
+                return hashlib.md5(("%s\0%s\0%s" % (salt, here, name)).encode("utf-8", "surrogateescape")).digest()
+            dirs.sort(key=key)
+            files.sort(key=key)
         if len(CTX.walk_orders) < 4096:
             CTX.walk_orders.add((tuple(dirs), tuple(files)))
         CTX.counters["walk_dirs"] += 1
